@@ -8,7 +8,7 @@ EXPLANATION = ("Static MIR rules on crate mla-bindings-c: (R20.1) in every exter
                "Box::from_raw is followed on all normal exits by Box::leak/into_raw of that box unless the caller's handle was nulled before (release "
                "functions); (R20.3) MLAStatus::Success is not reachable from the Err outcome of any fallible library call, results are not dropped; "
                "R20.1 also requires that with the non-null edges of a handle's tests cut no Success status is reachable (no early success above the null tests); R20.3 also requires that no `From<..> for MLAStatus` conversion yields Success and follows map_or_else error functions; "
-               "(R20.8) no field of the callback adapters is updated from the requested length without the count the callback reported; (R20.7) at every call of a dependency function that discards the io::Error of the writes it issues (brotli CompressorWriter::into_inner), inside a function returning a Result, the writer handed back is asked for the error it recorded on every path to Ok; "
+               "(R20.9) every field of the CallbackOutput registered for a file (write callback, flush callback, context) must-derives from the FileWriter the per-file callback filled (assume_init), not from an argument of the extraction call; (R20.8) no field of the callback adapters is updated from the requested length without the count the callback reported; (R20.7) at every call of a dependency function that discards the io::Error of the writes it issues (brotli CompressorWriter::into_inner), inside a function returning a Result, the writer handed back is asked for the error it recorded on every path to Ok; "
                "(R20.4) the callback adapters return Ok only on callback status 0, with the count the callback reported; (R20.5) extraction registers "
                "only writers initialised by the file callback under its status-0 edge and goes through linear_extract; (R20.6) no BufWriter / LineWriter stands in front of a "
                "caller callback unless every path to Success passes its flush (whose result R20.3 examines). Byte equality with the Rust "
@@ -145,6 +145,27 @@ def discarded_sink_errors(prog, rep, RULE='R20.7'):
                    '%s discards the error of the writes it issues (%s) and nothing examines what the destination reported before the function returns Ok: a write callback '
                    'that fails while the compressed stream is being closed goes unnoticed and the archive is short' % (cn, ERROR_DISCARDING[cn].split(':')[0]), body.loc(b.idx))
     rep.floor(RULE, n, 1, 'calls that discard the errors of the writer they own, in functions returning a Result')
+
+
+def _through_tuples(body, local, is_src, depth=0):
+    """must-derive that also looks through a tuple built and taken apart again (`let (Some(a), Some(b)) = (x.a, x.b) else ..`): the value read from
+    position k of a tuple local is the operand stored at position k of the aggregate that defines it"""
+    if depth > 6:
+        return False
+
+    def src(k, ob, bb):
+        if is_src(k, ob, bb):
+            return True
+        if k == 'assign' and ob.kind == 'assign' and ob.rv is not None and ob.rv.r in ('use', 'copy') and ob.rv.ops and ob.rv.ops[0].place is not None:
+            base, projs = ob.rv.ops[0].place
+            fs = [p for p in projs if p[0] == 'f']
+            if fs and body.lty(base).startswith('('):
+                ds = [d for d in body.defs.get(base, []) if d[2] == 'assign' and d[3].rv.r == 'aggregate' and d[3].rv.j.get('agg') == 'tuple']
+                if len(ds) == 1 and len(body.defs.get(base, [])) == 1 and fs[0][1] < len(ds[0][3].rv.ops):
+                    o2 = ds[0][3].rv.ops[fs[0][1]]
+                    return o2.place is not None and (must_derive(body, o2.place[0], is_src) or _through_tuples(body, o2.place[0], is_src, depth + 1))
+        return False
+    return must_derive(body, local, src)
 
 
 def run(prog, rep, tier):
@@ -454,6 +475,19 @@ def run(prog, rep, tier):
             msg = 'writers registered only on callback status 0, built from the FileWriter the callback filled, extracted by linear_extract' if ok else \
                 'extraction does not route through the caller-supplied writers as documented (guard=%s writer=%s map=%s)' % (okg, okw, okm)
         rep.ob('R20.5', ok, 'R20.5|%s|extract-via-caller-writers' % exi.nkey, msg, exi.loc())
+        # R20.9 "hands each file's exact bytes to the writer the caller supplied for it": every part of the registered writer -- both callbacks *and the
+        # context they are called with* -- is the one the per-file callback wrote into its FileWriter, not a value of the extraction call itself
+        aggs = [(bl.idx, i, st) for bl in exi.blocks if not bl.cleanup for i, st in enumerate(bl.stmts)
+                if st.kind == 'assign' and st.rv.r == 'aggregate' and strip_generics(str(st.rv.j.get('adt', ''))).endswith('CallbackOutput')]
+        rep.floor('R20.9', len(aggs), 1, 'constructions of CallbackOutput in mla_roarchive_extract_internal')
+        is_fw = lambda k, ob, bb: k == 'call' and ob.cmethod in ('assume_init', 'assume_init_read', 'assume_init_ref')
+        for (bb, i, st) in aggs:
+            for fname, op in zip(st.rv.j.get('fields') or [], st.rv.ops):
+                why = []
+                okf = op.place is not None and (must_derive(exi, op.place[0], is_fw, why=why) or _through_tuples(exi, op.place[0], is_fw))
+                rep.ob('R20.9', okf, 'R20.9|%s|writer-field:%s|from-the-per-file-writer' % (exi.nkey, fname), '`%s` comes from the FileWriter the per-file callback filled' % fname if okf else
+                       '`%s` of the registered writer is not taken from the FileWriter the per-file callback filled (%s): the bytes of a file are handed to another '
+                       'destination than the one the caller supplied for it' % (fname, '; '.join(why[:2]) or 'constant'), exi.loc(bb, i))
 
 
     # ---------------- R20.8 adapter bookkeeping follows what the callback reported, not what was asked for
